@@ -247,11 +247,19 @@ func typedExact(r *CRecord, pkg string) []problem {
 
 // opKey: deliverability is learned and demanded separately for the two value ranges of the harness.
 func opKey(c *RawCall) string {
+	k := c.TOp
 	if c.V&1 == 0 {
-		return c.TOp + "#small"
+		k += "#small"
 	}
-	return c.TOp
+	if c.Edge {
+		k += "#wide"
+	}
+	return k
 }
+
+// mustBeDeliverable: the call holds only values the property says are always delivered: core calls, and the
+// "wide" edge calls (numbers of the whole width, instants of any year; text and array lengths core).
+func mustBeDeliverable(c *RawCall) bool { return !c.Edge || c.V&2 == 0 }
 
 func reachedSide(t *TypedRec) *TypedSide {
 	for _, s := range t.Sides {
@@ -265,7 +273,7 @@ func reachedSide(t *TypedRec) *TypedSide {
 // typedDeliver: core-domain values are always delivered (fault-free and benign link behaviours only).
 func typedDeliver(r *CRecord, pkg string, ds *deliverSet) []problem {
 	t := r.T
-	if t == nil || ds == nil || r.Call.Edge || t.Harness != "" {
+	if t == nil || ds == nil || !mustBeDeliverable(&r.Call) || t.Harness != "" {
 		return nil
 	}
 	if f := r.Call.Fault; f != nil && f.Kind != "dup" && f.Kind != "replay" {
@@ -677,7 +685,7 @@ type learnPkg struct {
 }
 
 func learnFrom(learn map[string]*learnPkg, pkg string, r *CRecord) {
-	if r.T == nil || r.Call.Edge || r.T.Harness != "" || r.Call.Fault != nil {
+	if r.T == nil || !mustBeDeliverable(&r.Call) || r.T.Harness != "" || r.Call.Fault != nil {
 		return
 	}
 	l := learn[pkg]
